@@ -350,3 +350,37 @@ Proof.
     apply aget_in in Hg. apply filter_In in Hg as [Hin _]. rewrite <- Hj. now apply nodup_aget_in.
   - intros j Hne. unfold peers_of. cbn. now rewrite aget_aset_other by congruence.
 Qed.
+
+(* ------------------------------------------------------------------ node records sit under their own id *)
+Definition NodeKeys (st : sstate) : Prop :=
+  forall i nd, aget i (s_nodes st) = Some nd -> n_id nd = i.
+
+Lemma NodeKeys_s0 : NodeKeys s0.
+Proof. intros i nd; cbn; discriminate. Qed.
+
+Lemma aget_map_vals {V W} (g : V -> W) (m : amap V) q :
+  aget q (map (fun kv => (fst kv, g (snd kv))) m) = option_map g (aget q m).
+Proof. induction m as [|[k v] m IH]; cbn; auto. destruct (N.eqb q k); auto. Qed.
+
+Theorem NodeKeys_step X E now st o : NodeKeys st -> NodeKeys (fst (sstep X E now st o)).
+Proof.
+  intros H. destruct o; cbn [sstep]; try exact H.
+  - destruct (nstep E (s_nonce st) _); exact H.
+  - destruct (aget i (s_nodes st)); exact H.
+  - destruct (N.eqb (n_id nd) 0); [exact H|]. intros j ndj. cbn. rewrite aget_aset.
+    destruct (N.eqb_spec j (n_id nd)); [intros [= <-]; auto|apply H].
+  - destruct (registered st i); exact H.
+  - destruct (aget i (s_nodes st)) as [nd|] eqn:Hnd; [|exact H]. intros j ndj. cbn. rewrite aget_aset.
+    destruct (N.eqb_spec j i) as [->|]; [intros [= <-]; cbn; now apply H|apply H].
+  - destruct (registered st i); exact H.
+  - destruct (registered st i); [|exact H]. destruct (aget i (s_link st)); exact H.
+  - destruct (registered st i); exact H.
+  - destruct (aget i (s_link st)) as [a'|]; [destruct (N.eqb a a')|]; exact H.
+  - intros j ndj. cbn. rewrite (aget_map_vals (shift_node d)).
+    destruct (aget j (s_nodes st)) eqn:Hj; cbn; [|discriminate]. intros [= <-]. cbn. now apply H.
+Qed.
+
+Theorem NodeKeys_run X E ops : forall st, NodeKeys st -> NodeKeys (srun X E st ops).
+Proof.
+  induction ops as [|[now o] ops IH]; cbn; auto. intros st H. apply IH. now apply NodeKeys_step.
+Qed.
